@@ -6,8 +6,11 @@ Driver for C10.
 
 * model replay: the script lines of a phase (`t <tid> ...`, in file order, which is a valid
   linearisation) are run through the lock-discipline model as WHOLE wrappers (`ThreadSafe.runSys`)
-  when the thread-safe overloads are on, and as plain calls otherwise; a `misuse` is run through
-  `wrapper`, so the model (which mirrors the code as it is) predicts `lockstate held` / `next hang`.
+  when the thread-safe overloads are on, and as plain calls otherwise; a `misuse` (and the misuse the
+  test's own thread performs during `runm`) is run through `wrapper`, which executes the REGENERATED
+  constructor / destructor / releaseBeforeFailing / fail statements (`Gen.ThreadSafe.code`), so the
+  model predicts `lockstate free` / `next done` for the code as repaired and `held` / `hang` for a
+  tree in which the report no longer gives the lock back.
 * specification oracle (`spec`): judges the IMPLEMENTATION's observation lines only, with its own
   per-thread shadow sets of labels: no misuse report and no data-race symptom while the threads
   ran, exactly one lock acquisition per operation and as many releases, every underlying
@@ -73,7 +76,7 @@ def startPtrs (fresh : Bool) : Ptrs :=
 structure DState where
   ptrs     : Ptrs := startPtrs false                            -- the pointer table and its saved copies
   depth    : Nat := 0                                           -- open save scopes
-  sys      : Option Sys := some { lock := .free, det := [] }    -- none: a wrapper blocked (hang)
+  sys      : Option Sys := some (Sys.idle [])                   -- none: a wrapper blocked (hang)
   nthreads : Nat := 0
   pending  : List (Event × String) := []                        -- reverse file order, with the script form
   owners   : List (Nat × Nat × Kind) := []                      -- label, holding thread, family
@@ -100,14 +103,27 @@ def formOf : DetOp → String
 
 def withLock (d : DState) (ops : List DetOp) : List (DetOp × Bool) := ops.map fun op => (op, lockedOf d (formOf op))
 
-/-- run one detector operation through the function installed for it: a whole locked wrapper, or
-    the plain call; counts misuse reports -/
-def applyOp (acc : Option Sys × Nat) (item : DetOp × Bool) : Option Sys × Nat :=
-  match acc.1 with
+/-- accumulator of a replay: system state (none = a wrapper blocked), misuse reports, completed lock releases -/
+structure RAcc where
+  sys      : Option Sys
+  reports  : Nat := 0
+  releases : Nat := 0
+
+def countReport (op : DetOp) (s : Sys) (n : Nat) : Nat := if isMisuse op s.det then n + 1 else n
+
+/-- run one detector operation through the function installed for it: a whole locked wrapper (the
+    regenerated constructor / destructor / fail statements executed by the model), or the plain call;
+    counts misuse reports and the wrappers that gave the lock back -/
+def applyOp (acc : RAcc) (item : DetOp × Bool) : RAcc :=
+  match acc.sys with
   | none => acc
   | some s =>
-    if item.2 then (wrapper item.1 s, if isMisuse item.1 s.det then acc.2 + 1 else acc.2)
-    else (some (plainCall item.1 s), if isMisuse item.1 s.det then acc.2 + 1 else acc.2)
+    if item.2 then
+      match wrapper item.1 s with
+      | some s' => { sys := some s', reports := countReport item.1 s acc.reports,
+                     releases := if s'.lf.lock == .free then acc.releases + 1 else acc.releases }
+      | none => { acc with sys := none }
+    else { acc with sys := plainCall item.1 s, reports := countReport item.1 s acc.reports }
 
 def overloadedLine (p : Ptrs) : String := s!"overloaded {if p.overloaded then 1 else 0}"
 
@@ -163,7 +179,38 @@ def misuseOps (kind : String) (id : Nat) : Option (List DetOp) :=
   | "corrupt_delete" => some [.alloc id .new, .free id .new true]
   | "corrupt_delarr" => some [.alloc id .newArray, .free id .newArray true]
   | "corrupt_realloc" => some [.alloc id .malloc, .realloc id (id + 1) true]
+  | "new_realloc" => some [.alloc id .new, .realloc id (id + 1) false]
+  | "newarr_realloc" => some [.alloc id .newArray, .realloc id (id + 1) false]
+  | "newarr_free" => some [.alloc id .newArray, .free id .malloc false]
+  | "malloc_delarr" => some [.alloc id .malloc, .free id .newArray false]
   | _ => none
+
+/-- a concurrent phase: the scripts in file order (a valid linearisation), every operation through the
+    function installed for its entry point; `main` = the operations of a misuse the test's own thread
+    performs while the workers run (they concern scratch blocks only, so any position in the
+    linearisation gives the same observations; the model puts them last) -/
+def runPhase (d : DState) (main : Option (List DetOp)) : DState × List String :=
+  let sched := d.pending.reverse
+  let dops : List (DetOp × Bool) := (sched.filterMap fun (e, form) =>
+    match e.2 with
+    | .det op => some (op, lockedOf d form)
+    | _ => none)
+  let mops := match main with | some ops => withLock d ops | none => []
+  let r := dops.foldl applyOp { sys := d.sys }
+  let r2 := mops.foldl applyOp { r with reports := 0 }
+  let d' := { d with sys := r2.sys, pending := [], reports := r.reports }
+  let helds := (List.range d.nthreads).map fun t =>
+    s!"held {t} {(d.owners.filter (fun o => o.2.1 == t)).length}"
+  let locks := ((dops ++ mops).filter (·.2)).length
+  match r2.sys with
+  | none => (d', ["hang"])
+  | some _ =>
+    (d', [s!"ops {sched.length}"] ++ helds ++
+      [s!"outstanding {outstandingOf d'}", s!"reports {r.reports}", s!"locks {locks}",
+       s!"unlocks {r2.releases}", "unlocked 0", "overlap 0", "pattern 0"] ++
+      (match main with
+       | some _ => [s!"reported {r2.reports}", s!"left-by-jump {if r2.reports > 0 then 1 else 0}"]
+       | none => []))
 
 def modelStep (d : DState) (op : List String) (_obs : List (List String)) : DState × List String :=
   match op with
@@ -180,44 +227,32 @@ def modelStep (d : DState) (op : List String) (_obs : List (List String)) : DSta
       match scriptLine d t rest with
       | some (d', top) => ({ d' with pending := ((t, top), rest.headD "") :: d'.pending }, [])
       | none => (d, ["bad-op"])
-  | ["run"] =>
-    let sched := d.pending.reverse
-    let dops : List (DetOp × Bool) := sched.filterMap fun (e, form) =>
-      match e.2 with
-      | .det op => some (op, lockedOf d form)
-      | _ => none
-    let r := dops.foldl applyOp (d.sys, 0)
-    let d' := { d with sys := r.1, pending := [], reports := r.2 }
-    let helds := (List.range d.nthreads).map fun t =>
-      s!"held {t} {(d.owners.filter (fun o => o.2.1 == t)).length}"
-    let locks := (dops.filter (·.2)).length
-    match r.1 with
-    | none => (d', ["hang"])
-    | some _ =>
-      (d', [s!"ops {sched.length}"] ++ helds ++
-        [s!"outstanding {outstandingOf d'}", s!"reports {r.2}", s!"locks {locks}",
-         s!"unlocks {locks - (if locks > 0 then r.2 else 0)}", "unlocked 0", "overlap 0", "pattern 0"])
+  | ["run"] => runPhase d none
+  | ["runm", kind] =>
+    match misuseOps kind d.scratch with
+    | some ops => runPhase { d with scratch := d.scratch + 10 } (some ops)
+    | none => (d, ["bad-op"])
   | ["cleanup"] =>
     let dops := withLock d ((d.owners ++ d.transit).map fun o => DetOp.free o.1 o.2.2 false)
-    let r := dops.foldl applyOp (d.sys, 0)
-    let d' := { d with sys := r.1, owners := [], transit := [], pending := [] }
-    match r.1 with
+    let r := dops.foldl applyOp { sys := d.sys }
+    let d' := { d with sys := r.sys, owners := [], transit := [], pending := [] }
+    match r.sys with
     | none => (d', ["hang"])
-    | some _ => (d', [s!"outstanding {outstandingOf d'}", s!"reports {r.2}"])
+    | some _ => (d', [s!"outstanding {outstandingOf d'}", s!"reports {r.reports}"])
   | ["misuse", kind] =>
     match misuseOps kind d.scratch, d.sys with
     | some ops, some s0 =>
-      let r := (withLock d ops).foldl applyOp (some s0, 0)
-      match r.1 with
+      let r := (withLock d ops).foldl applyOp { sys := some s0 }
+      match r.sys with
       | none => ({ d with sys := none }, ["hang"])
       | some s1 =>
-        let head := [s!"reported {r.2}", s!"left-by-jump {if r.2 > 0 then 1 else 0}",
-                     s!"lockstate {if s1.lock == .free then "free" else "held"}"]
+        let head := [s!"reported {r.reports}", s!"left-by-jump {if r.reports > 0 then 1 else 0}",
+                     s!"lockstate {if s1.lf.lock == .free then "free" else "held"}"]
         -- the next allocation (new + delete, malloc + free in a helper thread)
         let nxt := [DetOp.alloc (d.scratch + 2) .new, .free (d.scratch + 2) .new false,
                     .alloc (d.scratch + 3) .malloc, .free (d.scratch + 3) .malloc false]
-        let r2 := (withLock d nxt).foldl applyOp (some s1, 0)
-        match r2.1 with
+        let r2 := (withLock d nxt).foldl applyOp { sys := some s1 }
+        match r2.sys with
         | none => ({ d with sys := none, scratch := d.scratch + 10 }, head ++ ["next hang"])
         | some s2 =>
           let d' := { d with sys := some s2, scratch := d.scratch + 10 }
@@ -237,6 +272,7 @@ structure Shadow where
   allOps  : Nat := 0
   races   : Nat := 0                      -- ThreadSanitizer reports seen so far (any location)
   depth   : Nat := 0                      -- open saveAndDisable scopes
+  misused : Bool := false                 -- a misuse was performed earlier in the case
 
 def obsNat (obs : List (List String)) (key : String) : Option Nat :=
   obs.findSome? fun l => match l with
@@ -273,6 +309,10 @@ def isCounterRace (l : List String) : Bool :=
   | ["tsan-race", "data-race", "global", "malloc_count", _] => true
   | _ => false
 
+/-- how many allocation / release operations a misuse scenario performs (the oracle's own table) -/
+def misuseOpCount (kind : String) : Nat :=
+  if kind.endsWith "_bogus" then 1 else 2
+
 def specStepCore (sh : Shadow) (o : Proto.Op) : Except String Shadow := do
   match o.op with
   | ["on"] | ["fresh"] | ["off"] =>
@@ -303,7 +343,7 @@ def specStepCore (sh : Shadow) (o : Proto.Op) : Except String Shadow := do
       return { sh with moving := sh.moving.filter (·.1 != l), held := (l, t) :: sh.held, allOps := sh.allOps + 1 }
     else
       return { sh with held := sh.held.filter (·.1 != l), detOps := sh.detOps + 1, allOps := sh.allOps + 1 }
-  | ["run"] =>
+  | ["run"] | ["runm", _] =>
     if o.obs.any (· == ["hang"]) then throw "the run did not finish"
     if (obsNat o.obs "stuck").isSome then throw "a thread waited for ever for a hand-over"
     let some reports := obsNat o.obs "reports" | throw "no `reports` observation"
@@ -320,7 +360,10 @@ def specStepCore (sh : Shadow) (o : Proto.Op) : Except String Shadow := do
         | ["unlocked-at", form, n] => some s!"{form}×{n}"
         | _ => none
       throw s!"{unlocked} underlying allocator call(s) made by a thread that did not hold the detector lock (entry forms: {" ".intercalate forms})"
-    if sh.on && locks != sh.detOps then throw s!"{sh.detOps} operations took the detector lock {locks} times"
+    let mainOps := match o.op with
+      | ["runm", kind] => misuseOpCount kind
+      | _ => 0
+    if sh.on && locks != sh.detOps + mainOps then throw s!"{sh.detOps + mainOps} operations took the detector lock {locks} times"
     if locks != unlocks then throw s!"lock acquired {locks} times but released {unlocks} times"
     if pattern != 0 then throw s!"{pattern} block(s) changed under their owner (overlapping or lost blocks)"
     -- what each thread still holds, as the implementation's threads report it
@@ -334,6 +377,13 @@ def specStepCore (sh : Shadow) (o : Proto.Op) : Except String Shadow := do
     let union : Int := ((hs.map (·.2)).foldl (· + ·) 0 + others : Nat)
     if outstanding != union then
       throw s!"outstanding blocks after join = {outstanding}, union of what the threads hold = {union}"
+    match o.op with
+    | ["runm", kind] =>
+      -- the misuse of the test's own thread while the workers ran: reported as a failure, and (checked above)
+      -- the run finished, every acquisition was released, the accounting is exact
+      if obsNat o.obs "reported" == some 0 || (obsNat o.obs "reported").isNone then
+        throw s!"misuse {kind} on the test's thread while {sh.n} threads ran was not reported as a test failure"
+    | _ => pure ()
     return { sh with detOps := 0, allOps := 0 }
   | ["cleanup"] =>
     if o.obs.any (· == ["hang"]) then throw "cleanup did not finish"
@@ -357,13 +407,16 @@ def specStepCore (sh : Shadow) (o : Proto.Op) : Except String Shadow := do
   | _ => throw "bad-op"
 
 def specStep (sh : Shadow) (o : Proto.Op) : Except String Shadow := do
+  if o.obs.any (· == ["stalled"]) then
+    if sh.misused || o.op.head? == some "runm" then
+      throw "stalled-after-misuse-report: no operation of any thread completed for 6 s in or after a phase in which the test's thread reported a misuse: a thread is blocked on the detector lock for ever"
+    throw "no operation of any thread completed for 6 s: a thread is blocked on the detector lock for ever, or loops inside the detector"
   let races := raceLines o.obs
   match races.find? (fun l => !isCounterRace l) with
   | some l => throw s!"ThreadSanitizer report while the threads ran: {" ".intercalate (l.drop 1)}"
   | none => pure ()
-  let sh := { sh with races := sh.races + races.length }
-  if o.obs.any (· == ["stalled"]) then
-    throw "no operation of any thread completed for 6 s: a thread is blocked on the detector lock for ever, or loops inside the detector"
+  let sh := { sh with races := sh.races + races.length,
+                      misused := sh.misused || o.op.head? == some "runm" || o.op.head? == some "misuse" }
   match o.obs.find? (fun l => l.head? == some "crash") with
   | some ["crash", "tsan"] =>
     if sh.races == 0 then throw "ThreadSanitizer reported an error that the report hook did not attribute"
